@@ -196,7 +196,13 @@ struct Prog {
     for (size_t i = 0; i < secs.size(); i++) if (i < vsizes.size() && vsizes[i]) secs[i]->set_virtual_size(vsizes[i]);
     // codeholder.h: flatten() "should never be called more than once" - JitRuntime::add flattens, resolves, relocates and copies
     // itself, so in install mode the harness must not flatten first; the events below then describe the state after _add.
-    static JitRuntime rt;
+    // two runtimes: the default single RWX mapping and a dual mapping (rx != rw: the code must be relocated for the
+    // address it runs at, i.e. the rx view)
+    static JitRuntime rt_single;
+    static JitAllocator::CreateParams dual_params = [] { JitAllocator::CreateParams p; p.options = JitAllocatorOptions::kUseDualMapping; return p; }();
+    static JitRuntime rt_dual(&dual_params);
+    static unsigned install_count = 0;
+    JitRuntime& rt = (install && (install_count++ & 1)) ? rt_dual : rt_single;
     void* fn = nullptr;
     Error add_err = Error::kOk;
     Error e = Error::kOk;
